@@ -63,7 +63,8 @@ func (g *gen) expr(sc []svar) M {
 	case 1:
 		return Bin("+", a, Int(1+g.rng.Intn(3)))
 	default:
-		return Bin("+", Bin("*", a, Int(10)), Var(is[g.rng.Intn(len(is))]))
+		// reduced modulo a prime: a value fed back through several closure calls must stay inside TLC's 32-bit integers
+		return Bin("%", Bin("+", Bin("*", a, Int(10)), Var(is[g.rng.Intn(len(is))])), Int(99991))
 	}
 }
 
